@@ -185,10 +185,12 @@ func (vc *VC) execStmt(s ast.Stmt, st *State, label string) Flow {
 		vc.havocAll(st, "go statement")
 		return Flow{normal: st}
 	case *ast.SelectStmt:
-		vc.outOfSubset = "select"
+		// channel operations are outside the sequential subset: the path ENDS here (nothing after it is generated or
+		// claimed); obligations generated on the way here are unaffected
+		vc.abstraction("select statement: path ends (code after it is not verified)")
 		return Flow{}
 	case *ast.SendStmt:
-		vc.outOfSubset = "channel send"
+		vc.abstraction("channel send: path ends (code after it is not verified)")
 		return Flow{}
 	}
 	vc.abstraction(fmt.Sprintf("statement %T", s))
@@ -1221,7 +1223,14 @@ func (vc *VC) applyAts(s ast.Stmt, st *State) {
 		return
 	}
 	specs := vc.atMap()[s]
+	covered := false
 	for _, a := range specs {
+		if !covered {
+			// vacuity guard per asserted site: the site is reachable under everything assumed so far (an assertion
+			// at a site made unreachable by a contradictory assumption would otherwise pass for free)
+			vc.cover(st, nil, fmt.Sprintf("site %s#%d:reachable", clip(a.Snippet), a.Occur))
+			covered = true
+		}
 		env := vc.specEnvAt(st, s.Pos())
 		t := vc.specBool(env, a.Clause.Expr)
 		switch a.Kind {
